@@ -981,6 +981,15 @@ static const char* skip_identifier(const char* str)
     }
 }
 
+/**
+ * Whether a date ("YYYY-MM-DD...") starts at @p src
+ * @note Same test as the date check in rtosc_skip_next_printed_arg()
+ */
+static int is_date(const char* src)
+{
+    return skip_fmt(&src, "%*4d-%*1d%*1d-%*1d%*1d%n");
+}
+
 int32_t delta_from_arg_vals(const rtosc_arg_val_t* llhsarg,
                             const rtosc_arg_val_t* lhsarg,
                             const rtosc_arg_val_t* rhsarg,
@@ -1778,8 +1787,8 @@ size_t rtosc_scan_arg_val(const char* src,
                 *buffer_for_strings = 0;
                 ++buffer_for_strings;
             }
-            // "YYYY-" => it's a date
-            else if(src[0] && src[1] && src[2] && src[3] && src[4] == '-')
+            // "YYYY-MM-DD" => it's a date
+            else if(is_date(src))
             {
                 arg->val.t = 0;
 
